@@ -377,6 +377,60 @@ fn adaptor_case(atk: f32, rel: f32, idx: &[usize]) -> Option<Bad> {
     None
 }
 
+/// every convenience constructor builds the same detector as Detector::new over the same detect
+/// component (attack and release in the same order), and the adaptor's setters reach the detector
+fn ctor_case(atk: f32, rel: f32, idx: &[usize], set_at: usize, set_attack: bool, t: f32) -> Option<Bad> {
+    use dasp_envelope::detect::Peak;
+    let alpha = [[0i16, 500], [8192, -8192], [-16384, 3], [32767, -32767], [-32767, 12345]];
+    let frames: Vec<[i16; 2]> = idx.iter().map(|&i| alpha[i]).collect();
+    macro_rules! same {
+        ($name:expr, $a:expr, $b:expr) => {{
+            let (mut a, mut b) = ($a, $b);
+            for (n, f) in frames.iter().enumerate() {
+                if n == set_at {
+                    if set_attack {
+                        a.set_attack_frames(t);
+                        b.set_attack_frames(t);
+                    } else {
+                        a.set_release_frames(t);
+                        b.set_release_frames(t);
+                    }
+                }
+                let (x, y) = (a.next(*f), b.next(*f));
+                if x != y {
+                    return Some(("env.ctor".into(), format!("{}({atk}, {rel}) on frames {frames:?} (setter at {set_at}): output {n} = {x:?}, Detector::new over the same component gives {y:?}", $name)));
+                }
+            }
+        }};
+    }
+    same!("Detector::peak", Detector::<[i16; 2], _>::peak(atk, rel), Detector::new(Peak::full_wave(), atk, rel));
+    same!("Detector::peak_positive_half_wave", Detector::<[i16; 2], _>::peak_positive_half_wave(atk, rel), Detector::new(Peak::positive_half_wave(), atk, rel));
+    same!("Detector::peak_negative_half_wave", Detector::<[i16; 2], _>::peak_negative_half_wave(atk, rel), Detector::new(Peak::negative_half_wave(), atk, rel));
+    same!("Detector::peak_from_rectifier(PositiveHalfWave)", Detector::<[i16; 2], _>::peak_from_rectifier(peak::PositiveHalfWave, atk, rel), Detector::new(Peak::positive_half_wave(), atk, rel));
+    same!("Detector::peak_from_rectifier(FullWave)", Detector::<[i16; 2], _>::peak_from_rectifier(peak::FullWave, atk, rel), Detector::new(Peak::full_wave(), atk, rel));
+    same!("Detector::rms", Detector::<[i16; 2], _>::rms(Fixed::from(vec![[0.0f32; 2]; 3]), atk, rel), Detector::new(dasp_rms::Rms::<[i16; 2], Vec<[f32; 2]>>::new(Fixed::from(vec![[0.0f32; 2]; 3])), atk, rel));
+    // the signal adaptor and its setters
+    let (p, c) = Probe::new(frames.clone());
+    let mut sig = p.detect_envelope(Detector::peak(atk, rel));
+    let mut det: Detector<[i16; 2], _> = Detector::new(Peak::full_wave(), atk, rel);
+    for (n, f) in frames.iter().enumerate() {
+        if n == set_at {
+            if set_attack {
+                sig.set_attack_frames(t);
+                det.set_attack_frames(t);
+            } else {
+                sig.set_release_frames(t);
+                det.set_release_frames(t);
+            }
+        }
+        let (x, y) = (sig.next(), det.next(*f));
+        if x != y || c.pulls() != n + 1 {
+            return Some(("env.adaptor".into(), format!("detect_envelope({atk}, {rel}) on frames {frames:?} (setter at {set_at}): output {n} = {x:?}, direct detector gives {y:?}; {} pulls", c.pulls())));
+        }
+    }
+    None
+}
+
 fn main() {
     let ctx = Ctx::new("C19", "release");
     let fams = families();
@@ -495,10 +549,29 @@ fn main() {
             }
         }
     }
+    // constructors and adaptor setters: every (attack, release) pair x every 3-frame input x setter position x kind x value
+    let mut ctor_n = 0u64;
+    for &atk in &TIMES {
+        for &rel in &TIMES {
+            for code in 0..125usize {
+                let idx: Vec<usize> = (0..3).map(|j| (code / 5usize.pow(j)) % 5).collect();
+                for set_at in 0..4usize {
+                    for (set_attack, t) in [(true, 0.0f32), (true, 2.5), (false, 0.0), (false, 100.0)] {
+                        ctor_n += 1;
+                        if let Some((k, m)) = ctor_case(atk, rel, &idx, set_at, set_attack, t) {
+                            ctx.violation(&k, json!({"sys":"ctor","atk":atk,"rel":rel,"idx":idx,"set_at":set_at,"set_attack":set_attack,"t":t}), m, None);
+                        }
+                    }
+                }
+            }
+        }
+    }
+    evals.fetch_add(ctor_n, Relaxed);
+    ctx.set("constructor_cases", json!(ctor_n));
     ctx.add_evals(evals.load(Relaxed));
     ctx.set("exhaustive", json!(false));
     ctx.set("exhaustive_scope", json!("rectifiers: every value of the <=24-bit integer formats (thorough: <=32-bit and every f32), lattice above; follower: every history over the finite action alphabet to the stated depth"));
-    ctx.rule(&format!("rectifiers: full_wave / positive_half_wave / negative_half_wave (functions and Rectifier structs, bare samples and 3-channel frames) over every value of i8 u8 i16 u16 I24 U24 (thorough: i32 u32 too), lattice for wider formats, f32 patterns (thorough: all) and their f64 widening; oracle |signed amplitude| (the value whose negation is unrepresentable excluded) and clamp to the upper / lower side of equilibrium; follower: 17 detector families (peak x 3 rectifiers and RMS windows 1..3 over f32, [f64;2], [i16;1], [u8;2]) x attack, release in {{0,0.5,1,2.5,100,1e6}}^2 x every history of length {depth} over {{next(5 letters), set_attack(3), set_release(3)}}; per step from the OBSERVED previous output l and the detected value d (second instance of the real detect component): out == d + g(l-d) with g = exp(-1/t) (attack iff l<d) within 1 LSB / 4 ulp + 4 ulp(f32) of the gain, between l and d, == d when t = 0; constant input: the distance to the detected value never grows; detect_envelope adaptor == direct detector, one pull per output"));
+    ctx.rule(&format!("rectifiers: full_wave / positive_half_wave / negative_half_wave (functions and Rectifier structs, bare samples and 3-channel frames) over every value of i8 u8 i16 u16 I24 U24 (thorough: i32 u32 too), lattice for wider formats, f32 patterns (thorough: all) and their f64 widening; oracle |signed amplitude| (the value whose negation is unrepresentable excluded) and clamp to the upper / lower side of equilibrium; follower: 17 detector families (peak x 3 rectifiers and RMS windows 1..3 over f32, [f64;2], [i16;1], [u8;2]) x attack, release in {{0,0.5,1,2.5,100,1e6}}^2 x every history of length {depth} over {{next(5 letters), set_attack(3), set_release(3)}}; per step from the OBSERVED previous output l and the detected value d (second instance of the real detect component): out == d + g(l-d) with g = exp(-1/t) (attack iff l<d) within 1 LSB / 4 ulp + 4 ulp(f32) of the gain, between l and d, == d when t = 0; constant input: the distance to the detected value never grows; detect_envelope adaptor (incl. its setters) == direct detector, one pull per output; Detector::peak / peak_positive_half_wave / peak_negative_half_wave / peak_from_rectifier / rms == Detector::new over the same component for every (attack, release) pair, 3-frame input and setter position"));
     ctx.sample(json!({"sys":"follow","family":"[u8;2] peak negative","atk":2.5,"rel":0.0,"actions":["next:2","attack:0","next:4","next:1"]}));
     ctx.sample(json!({"sys":"rect","fmt":"U24","v":"8388607"}));
     ctx.assume("integer input alphabets of the follower exclude the format's minimum: the follower negates the detected value and forms l - d, which is representable for every other amplitude");
